@@ -90,3 +90,19 @@ Lemma gabor_unit_l2_norm_freq_l std : 0 < std ->
   is_RInt_gen (fun omega => gabor_image true std 0 omega ^ 2 / (2 * PI))
               (Rbar_locally m_infty) (Rbar_locally p_infty) 1.
 Proof. intros Hs. rewrite <- (gabor_l2_freq_l std Hs). apply gabor_l2_freq_is_integral_l. exact Hs. Qed.
+
+(* the response at the centre frequency is the integral of the impulse-response envelope
+   (the omega = centre value of the Fourier transform), for both normalisations *)
+Lemma gabor_centre_gain_is_integral_l l2 std : 0 < std ->
+  is_RInt_gen (fun t => gabor_ir_abs l2 std t)
+              (Rbar_locally m_infty) (Rbar_locally p_infty) (exp (gabor_fr_const_term l2 std)).
+Proof.
+  intros Hs.
+  assert (Hd : 0 < gabor_ir_denom_term std).
+  { unfold gabor_ir_denom_term. cbv zeta. assert (0 < std ^ 2) by (apply pow_lt; exact Hs). lra. }
+  rewrite <- (gabor_ir_fr_consistent_l l2 std Hs).
+  apply scaled_gauss_integral; [apply Rdiv_lt_0_compat; lra|].
+  intros t. unfold gabor_ir_abs. rewrite exp_plus.
+  replace (- (1 / gabor_ir_denom_term std * t ^ 2)) with (- t ^ 2 / gabor_ir_denom_term std) by (field; lra).
+  ring.
+Qed.
